@@ -39,7 +39,7 @@ ASSUMPTIONS = ['requested values are what Node can send (marshalled JSON: None, 
                'a query naming an unknown column is not judged (the engine raises KeyError; nothing is documented)',
                'membership is Python equality: a ChoiceList cell is stored as a tuple and therefore never equals a requested list']
 BUDGET = {'quick': dict(examples=1200, shards=8, max_seconds=50),
-          'thorough': dict(examples=12000, shards=16, max_seconds=420)}
+          'thorough': dict(examples=12000, shards=16, max_seconds=1800)}
 
 TYPES = ['Text', 'Int', 'Numeric', 'Bool', 'Choice', 'ChoiceList', 'RefList:Other', 'Any', 'Date']
 COLS = ['A', 'B', 'C', 'D']
